@@ -90,7 +90,7 @@ def run(tier, seed):
     rnd = random.Random(seed)
     tie_ok, tout = translate.run(['tables'])
     proof = common.build_property(PID)
-    specs = stream.specs(tier, seed, n_quick=40, n_thorough=600)
+    specs = stream.specs(tier, seed, n_quick=40, n_thorough=300)
     jobs = []      # (base index, paraphrase name, text)
     bases = []
     for name, text, sents in specs:
@@ -110,7 +110,7 @@ def run(tier, seed):
             continue
         bi = len(bases)
         bases.append((name, text))
-        k = 25 if tier == 'thorough' else 6
+        k = 16 if tier == 'thorough' else 6
         chosen = cands if name.startswith('regressions/c09_') else rnd.sample(cands, min(k, len(cands)))
         for (i, nm, pat, repl) in chosen:
             nl = apply_one(lines, i, pat, repl)
